@@ -123,7 +123,7 @@ func init() {
 	}
 	sup.Register(&sup.Check{
 		Prop: "C07", Level: "exploration",
-		Rule:        "engine A with documents carrying 0-5 system and user xattrs; after every step the read-back of every xattr name in the pool is compared: names the call did not mention must be byte-identical, fresh values JSON-equivalent, macro expansions equal to the new CAS / CRC32-C of the stored body (computed independently); failure injection by stale CAS, missing xattr, oversize (MaxDocSize lowered), unparseable xattr JSON and argument-validation errors, each followed by the frame rule; (forced windows) expiry and macro specs of a WriteUpdateWithXattrs attempt that lost its CAS check must not be applied by the retry, the exp argument must be honoured; macro paths that name only the xattr (argument error: no panic, nothing applied); xattr values followed by surplus closing braces / brackets / trailing text; macro paths of three and four components; cell = (op variant, pre-state class, outcome, bucket type)",
+		Rule:        "engine A with documents carrying 0-5 system and user xattrs; after every step the read-back of every xattr name in the pool is compared: names the call did not mention must be byte-identical, fresh values JSON-equivalent, macro expansions equal to the new CAS / CRC32-C of the stored body (computed independently); failure injection by stale CAS, missing xattr, oversize (MaxDocSize lowered), unparseable xattr JSON and argument-validation errors, each followed by the frame rule; (forced windows) expiry and macro specs of a WriteUpdateWithXattrs attempt that lost its CAS check must not be applied by the retry, the exp argument must be honoured; macro paths that name only the xattr (argument error: no panic, nothing applied); xattr values followed by surplus closing braces / brackets / trailing text; macro paths of three and four components; (refused inside the transaction) a combined body+xattr write whose statement is refused by an unevaluable expression index applies none of it: the key's complete read-back stays as it was; cell = (op variant, pre-state class, outcome, bucket type)",
 		Assumptions: append([]string{"WithMeta xattr blobs are generated in encoding/json canonical form (rosmar stores them verbatim and normalises them on the next xattr write)"}, kvAssume...),
 		Parts: []sup.Part{
 			exhaustivePart("exhaustive", c07),
@@ -133,6 +133,7 @@ func init() {
 			{Name: "forced-windows", Timeout: 60 * time.Second, Count: func(t string) int { return tierN(t, 2, 20) }, Run: func(c *sup.Ctx) {
 				windowScenario(c, rng.New(c.Seed, rng.HashString("C07win"), uint64(c.Local)), []string{"C02", "C03", "C18"})
 			}},
+			{Name: "refused-inside-the-transaction", Timeout: 90 * time.Second, Count: func(t string) int { return tierN(t, 30, 600) }, Run: refusedWriteScenario},
 		},
 		Floor: cellsFloor(300),
 	})
